@@ -986,9 +986,9 @@ func main() {
 		w.Finish()
 		return
 	}
-	for _, c := range corpus() {
-		c := c
-		if w.Len() < w.N {
+	if os.Getenv("VERIF_PROC") == "" || os.Getenv("VERIF_PROC") == "0" {
+		for _, c := range corpus() {
+			c := c
 			runCase(w, &c)
 		}
 	}
